@@ -514,3 +514,14 @@ PROPS['C12']['obligations'] += [
     for k in range(10)
 ]
 PROPS['C12']['outside'] = 'more than 4 trial ids in the one-step obligations; histories longer than 3 suggests / 4 actions'
+
+
+PROPS['C10']['encoded'] += ['VizierServicer.SuggestTrials metadata path', 'PythiaServicer.Suggest', 'MetadataDeltaConverter']
+PROPS['C10']['obligations'] += [
+    O('C10.algo_delta_ram', 'harness.c10_algo_md', 'algo_delta_ram', 300, 900,
+      'a MetadataDelta issued by the hosted algorithm through SuggestTrials (study-only / trial-only / mixed; root, reserved '
+      'and colliding-looking namespaces) is stored exactly, last writer wins, user entries untouched (RAM)',
+      '2 rounds, 2+1 writes over {study, trial 1, trial 2} x 4 namespaces x 3 keys', no_validate=True),
+    O('C10.algo_delta_sql', 'harness.c10_algo_md', 'algo_delta_sql', 300, 900, 'same on the SQL datastore',
+      '2 rounds, 2+1 writes over {study, trial 1, trial 2} x 4 namespaces x 3 keys', no_validate=True),
+]
